@@ -96,11 +96,19 @@ func c07AllValues() map[string]rv.V {
 			m[v.Key()] = v
 		}
 	}
+	for _, al := range c07MoreAlphabets {
+		for _, v := range al {
+			m[v.Key()] = v
+		}
+	}
 	for i := 0; i < 12; i++ {
 		m[rv.I(int64(i)).Key()] = rv.I(int64(i))
 	}
 	return m
 }
+
+// c07MoreAlphabets: the values of the families in the other c07_*.go files (for decoding their replay payloads).
+var c07MoreAlphabets [][]rv.V
 
 // ---- queries --------------------------------------------------------------------------------------
 
@@ -594,58 +602,76 @@ func c07Inversion(got []ordref.Row, keys []ordref.Key) (sig string, at, decider 
 	return "", 0, 0, false
 }
 
-// c07Judge compares one csvq result with the reference predicate. Returns whether the case was non-trivial.
-// exec runs a further query on the same table; it is used only to attribute a wrong window to the sort when
-// the same ORDER BY without the limit clause is already wrongly sorted.
+// c07Judge compares one csvq result with the reference predicate and reports a disagreement. Returns whether the
+// case was non-trivial. exec runs a further query on the same table; it is used only to attribute a wrong window to
+// the sort when the same ORDER BY without the limit clause is already wrongly sorted.
 func c07Judge(c *core.Ctx, family, seam string, tbl []ordref.Row, q c07Query, out [][]rv.V, err error, pn any, exec c07Exec) bool {
+	sig, msg, nontrivial := c07Assess(c, seam, tbl, q, q.SQL(), out, err, pn, exec)
+	if sig != "" {
+		c.Violate(c07SigPrefix(family)+sig, msg, c07PayloadOf(family, seam, tbl, q, q.SQL()))
+	}
+	return nontrivial
+}
+
+// c07SigPrefix: the families added after round 7 name themselves in the signature (the older ones keep the bare class).
+func c07SigPrefix(family string) string {
+	switch family {
+	case "sort", "cut", "big", "file", "decorated", "nan":
+		return ""
+	}
+	return family + ":"
+}
+
+func c07PayloadOf(family, seam string, tbl []ordref.Row, q c07Query, sql string) c07Payload {
+	p := c07Payload{Family: family, Seam: seam, Query: q, SQL: sql}
+	for _, r := range tbl {
+		p.Rows = append(p.Rows, []string{r.V[0].Key(), r.V[1].Key()})
+	}
+	return p
+}
+
+// c07Assess is the reference predicate itself: it returns the class and the description of the disagreement
+// ("" when csvq's answer is one the manual allows). sql is the statement as it was executed (for the message);
+// out holds the rows of SELECT k1, k2, id of q's form in output order.
+func c07Assess(c *core.Ctx, seam string, tbl []ordref.Row, q c07Query, sql string, out [][]rv.V, err error, pn any, exec c07Exec) (vsig, vmsg string, nontrivial bool) {
 	out = c07Undecorate(q, out)
 	n := len(tbl)
 	ordered := len(q.Keys) > 0
 	sorted := ordref.Sorted(tbl, q.Keys)
 	w := ordref.Cut(sorted, q.Keys, ordered, q.Lim)
-	nontrivial := w.End-w.Start < n
+	nontrivial = w.End-w.Start < n
 	if ordered && n >= 2 {
 		if r, _, _ := ordref.CmpRows(sorted[0], sorted[n-1], q.Keys); r != ordref.Tie {
 			nontrivial = true
 		}
 	}
-	sql := q.SQL()
-	payload := func() c07Payload {
-		p := c07Payload{Family: family, Seam: seam, Query: q, SQL: sql}
-		for _, r := range tbl {
-			p.Rows = append(p.Rows, []string{r.V[0].Key(), r.V[1].Key()})
-		}
-		return p
-	}
 	where := func() string { return fmt.Sprintf("%s on %s table %s", sql, seam, c07RowsText(tbl)) }
 
 	if pn != nil || drv.IsFatal(err) {
-		c.Violate(c07FatalSig(err, pn), fmt.Sprintf("%s: csvq fails internally: %v %v", where(), firstLine(err), pn), payload())
-		return nontrivial
+		return c07FatalSig(err, pn), fmt.Sprintf("%s: csvq fails internally: %v %v", where(), firstLine(err), pn), nontrivial
 	}
 	if err != nil {
-		c.Violate(fmt.Sprintf("error:%d:%s", drv.ErrCode(err), c07Form(q, w, sorted, ordered)),
-			fmt.Sprintf("%s: csvq returns the error %q, the manual defines a result", where(), err.Error()), payload())
-		return nontrivial
+		return fmt.Sprintf("error:%d:%s", drv.ErrCode(err), c07Form(q, w, sorted, ordered)),
+			fmt.Sprintf("%s: csvq returns the error %q, the manual defines a result", where(), err.Error()), nontrivial
 	}
 
 	// 1. every output row is an input row, unchanged, used once
 	got, ok := c07Match(out, tbl)
 	if !ok {
-		c.Violate("rows:not-a-sub-permutation:"+c07Form(q, w, sorted, ordered),
-			fmt.Sprintf("%s: output %s contains a row that is not an unused, unchanged input row", where(), drv.RowsKey(out)), payload())
-		return nontrivial
+		return "rows:not-a-sub-permutation:" + c07Form(q, w, sorted, ordered),
+			fmt.Sprintf("%s: output %s contains a row that is not an unused, unchanged input row", where(), drv.RowsKey(out)), nontrivial
 	}
 
 	// 2. the output is sorted under the listed items
 	if sig, i, decider, found := c07Inversion(got, q.Keys); found {
-		c.Violate(sig, fmt.Sprintf("%s: output %s has row #%d before row #%d although order item %d puts it after",
-			where(), c07RowsText(got), got[i].ID, got[i+1].ID, decider+1), payload())
-		return nontrivial
+		return sig, fmt.Sprintf("%s: output %s has row #%d before row #%d although order item %d puts it after",
+			where(), c07RowsText(got), got[i].ID, got[i+1].ID, decider+1), nontrivial
 	}
 	if w.Ambiguous {
-		c.Add("percent_rounding_ambiguous_not_compared", 1)
-		return nontrivial
+		if c != nil {
+			c.Add("percent_rounding_ambiguous_not_compared", 1)
+		}
+		return "", "", nontrivial
 	}
 
 	// 3. length of the window; 4. position by position the output ties with the window of a sorted arrangement
@@ -675,7 +701,7 @@ func c07Judge(c *core.Ctx, family, seam string, tbl []ordref.Row, q c07Query, ou
 		}
 	}
 	if kind == "" {
-		return nontrivial
+		return "", "", nontrivial
 	}
 	if ordered && exec != nil && (q.Lim.Kind != ordref.LimNone || q.Lim.HasOff) {
 		// is the sort itself already wrong on this table? then this is the sort's violation, seen through a window
@@ -683,15 +709,13 @@ func c07Judge(c *core.Ctx, family, seam string, tbl []ordref.Row, q c07Query, ou
 		if fout, ferr, fpn := exec(full.SQL()); ferr == nil && fpn == nil {
 			if fgot, ok := c07Match(fout, tbl); ok {
 				if sig, i, decider, found := c07Inversion(fgot, q.Keys); found {
-					c.Violate(sig, fmt.Sprintf("%s: %s; the same ORDER BY without the limit clause gives %s, which has row #%d before row #%d although order item %d puts it after",
-						where(), msg, c07RowsText(fgot), fgot[i].ID, fgot[i+1].ID, decider+1), payload())
-					return nontrivial
+					return sig, fmt.Sprintf("%s: %s; the same ORDER BY without the limit clause gives %s, which has row #%d before row #%d although order item %d puts it after",
+						where(), msg, c07RowsText(fgot), fgot[i].ID, fgot[i+1].ID, decider+1), nontrivial
 				}
 			}
 		}
 	}
-	c.Violate(kind+c07Form(q, w, sorted, ordered), where()+": "+msg, payload())
-	return nontrivial
+	return kind + c07Form(q, w, sorted, ordered), where() + ": " + msg, nontrivial
 }
 
 func firstLine(err error) string {
@@ -774,7 +798,26 @@ func c07PlanOf(thorough bool) c07Plan {
 	}
 }
 
+// c07Only: development aid. C07_ONLY=<family>[,<family>] runs only the named families of the c07_*.go files
+// (the run is then reported as not exhaustive).
+func c07Only(c *core.Ctx, family string) bool {
+	only := os.Getenv("C07_ONLY")
+	if only == "" {
+		return true
+	}
+	c.Incomplete("C07_ONLY is set: only the families " + only + " were run")
+	for _, f := range strings.Split(only, ",") {
+		if f == family {
+			return true
+		}
+	}
+	return false
+}
+
 func c07Run(c *core.Ctx) {
+	if !c07Only(c, "main") {
+		return
+	}
 	plan := c07PlanOf(c.Thorough())
 	r := newC07Runner(core.Scratch("c07"))
 	defer r.close()
@@ -1254,9 +1297,17 @@ func c07NaNFamily(c *core.Ctx, r *c07Runner, maxRows int, base *int64) bool {
 
 // ---- replay ---------------------------------------------------------------------------------------
 
+// c07MoreReplays: the replay functions of the families in the other c07_*.go files (each recognises its own payload).
+var c07MoreReplays []func(c *core.Ctx, payload json.RawMessage) bool
+
 func c07Replay(c *core.Ctx, payload json.RawMessage) {
 	if c07CustomReplay(c, payload) {
 		return
+	}
+	for _, f := range c07MoreReplays {
+		if f(c, payload) {
+			return
+		}
 	}
 	var p c07Payload
 	if err := json.Unmarshal(payload, &p); err != nil {
